@@ -109,6 +109,9 @@ func TestVerif_C29_Group(t *testing.T) {
 		return tx.Txn()
 	}
 
+	// A block-level failure leaves the shared evaluator finished; remember it so that rapid's re-runs (shrinking)
+	// report the same failure instead of tripping over the used evaluator.
+	sticky := ""
 	// finishBlock: mutated blocks must be refused, the real one accepted and appended
 	finishBlock := func(t *rapid.T) {
 		ub, err := ev.GenerateBlock(nil)
@@ -126,7 +129,8 @@ func TestVerif_C29_Group(t *testing.T) {
 		reject := func(what string, b bookkeeping.Block) {
 			vk.Label("block-reject:" + what)
 			if err := validate(b); err == nil {
-				t.Fatalf("Validate accepted a block with %s (round %d, %d txns)", what, b.Round(), len(b.Payset))
+				sticky = fmt.Sprintf("Validate accepted a block with %s (round %d, %d txns)", what, b.Round(), len(b.Payset))
+				t.Fatalf("%s", sticky)
 			}
 		}
 		n := len(blk.Payset)
@@ -167,11 +171,13 @@ func TestVerif_C29_Group(t *testing.T) {
 		m.Branch[rapid.IntRange(0, 31).Draw(t, "bb")] ^= 1
 		reject("bit flipped in Branch", m)
 		if !blk.ContentsMatchHeader() {
-			t.Fatalf("generated block does not match its own header")
+			sticky = "generated block does not match its own header"
+			t.Fatalf("%s", sticky)
 		}
 		vvb, err := validateWithoutSignatures(tt, l, blk)
 		if err != nil {
-			t.Fatalf("Validate refused the untouched block: %v", err)
+			sticky = fmt.Sprintf("Validate refused the untouched block: %v", err)
+			t.Fatalf("%s", sticky)
 		}
 		if err := l.AddValidatedBlock(*vvb, agreement.Certificate{}); err != nil {
 			tt.Fatalf("AddValidatedBlock: %v", err)
@@ -184,6 +190,9 @@ func TestVerif_C29_Group(t *testing.T) {
 	}
 
 	rapid.Check(t, func(t *rapid.T) {
+		if sticky != "" {
+			t.Fatalf("%s", sticky)
+		}
 		if inBlock >= 25 {
 			finishBlock(t)
 		}
@@ -370,7 +379,7 @@ func TestVerif_C29_Group(t *testing.T) {
 		}
 	})
 	// finish the last block through the same checks (outside rapid: fixed draws are not needed any more)
-	if inBlock > 0 {
+	if inBlock > 0 && sticky == "" && !t.Failed() {
 		endBlock(tt, l, ev)
 	}
 }
